@@ -285,6 +285,16 @@ theorem interp_reproduces_after_updates {F : Type} [Field F] (kfun : Nat → Pt 
   rw [h4]
   exact interp_reproduces (Kmat kfun st.kernel key.2) hK _ i
 
+open Darsia.Kern in
+/-- **accelerated evaluation = plain kernel sum** (model of the loop both `linear_combination` implementations
+run: start with `w₀·k(x, s₀)`, accumulate `w_n·k(x, s_n)`), for every kernel function over any commutative
+semiring and every supported signal shape — single pixel `(3,)`, pixel list `(N, 3)`, image `(H, W, 3)`:
+each entry of the result is `Σ_n w_n k(x, s_n)` at its pixel. (Tied exactly for `LinearKernel` on dyadic
+float32 inputs, numba and plain; `exp` in `GaussianKernel` and fastmath reassociation are observed, 1e-5.) -/
+theorem kernel_loop_eq_plain_sum {F : Type} [CommSemiring F] (k : Pt → Pt → F) (ws : List F) (ss : List Pt)
+    (sig : Signal) : sig.combine k ws ss = sig.pixels.map (plainSum k ws ss) :=
+  combine_eq_plainSum k ws ss sig
+
 /-! ### polynomial approximation space -/
 
 /-- `poly_span`: for every degree `d` the exponent list has no repetition, contains exactly the pairs
